@@ -130,8 +130,8 @@ def run_fragment(ck, cc, d):
     """Tie of the theorems `lower_correct` (F1) and `lower2_correct` (F2) to this compiler.  For generated functions
     of fragment F1 (`T f(params) { return E; }`) and of fragment F2 (bodies with declarations, assignments, ++/--,
     if/else, while/do/for, switch/case/default, break/continue, return; gen/c01frag.py: typed tree as expr.c/stmt.c/
-    decl.c build it), and for generated PROGRAMS of such functions calling each other and themselves (stage D: no
-    theorem yet - Props/C01.lean `lower3_correct_full` is stated, not claimed; same three comparisons):
+    decl.c build it), and for generated PROGRAMS of such functions calling each other and themselves (stage D:
+    `lower3_correct`; same three comparisons, the IL run is that of the whole module):
       (1) the text `Lower.emitFunc` / `Lower2.emitFunc` gives for the tree is byte-identical to what cproc-qbe emits;
       (2) `CSem.evalC` / `CSem2.runC` agrees with gcc and clang (UBSan-clean) on sample arguments - validates the C
           semantics the theorems are stated against (a disagreement marks the check broken, never a violation);
@@ -254,7 +254,7 @@ def run_fragment(ck, cc, d):
             i = differ[0]
             ck.violation({"kind": "lowering-model-differs",
                           "theorem": ("CprocVerif.C01.lower_correct (tie: Lower.emitFunc = qbe.c funcexpr)" if i < nf1 else
-                                      "CprocVerif.C01.lower2_correct (tie: Lower2.emitFunc = stmt.c stmt / decl.c funcinit / "
+                                      "CprocVerif.C01.lower2_correct, lower3_correct (tie: Lower2.emitFunc = stmt.c stmt / decl.c funcinit / "
                                       "qbe.c funcexpr, funcstore, funcalloc, funcjnz, funclabel)"),
                           "function": funcs[i][0], "tree": funcs[i][1], "target": targ,
                           "cproc": real[i] if i < len(real) else None, "model": model[i],
@@ -376,7 +376,7 @@ def run(ck):
 
 META = {
     "category": "proof",
-    "text": ("Semantic preservation is PROVED in Lean for two fragments of the language.  F1 - functions `T f(params) { return E; }` "
+    "text": ("Semantic preservation is PROVED in Lean for two fragments of the language and for programs of functions of the second.  F1 - functions `T f(params) { return E; }` "
              "over all 12 integer types with every arithmetic, bitwise, shift, comparison, logical (short-circuit), conditional, cast "
              "and unary-minus operator, any nesting depth, any number of parameters (Props/C01.lean: lower_correct, "
              "lower_correct_in, lower_correct_exact).  F2 - functions whose body is built from declarations of integer block-scope "
@@ -395,12 +395,17 @@ META = {
              "and nesting, loops included), all in-range arguments, both char conventions, any block-counter start.  The theorems "
              "are tied to THIS compiler on every run: for generated F1 and F2 functions (typed trees as expr.c/stmt.c/decl.c build "
              "them) the text cproc-qbe emits must be byte-identical to the model's, the C semantics must agree with gcc and clang on "
-             "sample arguments, and the real IL executed under Spec/Qbe must return the C semantics' value.  The same three comparisons "
-             "(no theorem yet: Props/C01.lean states `lower3_correct_full` without claiming it) run for generated PROGRAMS of F2 "
-             "functions that call each other and themselves (Model/CSem3.lean: big-step semantics over the function table, arguments "
-             "converted as by assignment, result stored or dropped; Lower2's `call` lowering of qbe.c EXPRCALL).  Outside F1/F2 (floats, "
-             "pointers, aggregates, bit-fields, goto, non-scalar initialisers, VLAs, unreachable code after a jump) "
-             "nothing is proved (for calls: nothing beyond that tie): there the check is translation validation - every program of the typed generator "
+             "sample arguments, and the real IL executed under Spec/Qbe must return the C semantics' value.  PROGRAMS: lists of F2 "
+             "functions that call each other and themselves by direct calls as statements `[x =] f(args);` (lower3_correct, "
+             "lower3_correct_in, lower3_correct_exact; CSem2.exec over the function table / CSem3.runP: arguments converted as by "
+             "assignment, callee on a fresh store with fuel one less, result converted and stored or dropped; Lower2's lowering of "
+             "qbe.c EXPRCALL): if the C execution of entry(rho) returns v within fuel n and the 64 MiB IL stack has room for n+1 "
+             "activations (64 bytes + at most 32 per variable each), the module of ALL emitted functions run from entry returns a "
+             "representation of v - nested frames, recursion, the caller's memory untouched by the callee; tied to the compiler by "
+             "the same three comparisons on generated programs.  Outside F1/F2/programs (floats, "
+             "pointers, aggregates, bit-fields, goto, calls inside expressions, indirect and variadic calls, non-scalar initialisers, "
+             "VLAs, unreachable code after a jump) "
+             "nothing is proved: there the check is translation validation - every program of the typed generator "
              "gen/cprog.py is compiled by the freshly built cproc-qbe, its real IL is executed under the formal IL semantics and the "
              "trace/exit status compared with gcc and clang (UBSan/ASan-clean, agreeing), for the char conventions of all three "
              "targets."),
@@ -412,7 +417,8 @@ META = {
              "the oracle outside F1/F2.  Partial: the proofs cover F1 and F2; the rest of the property's language is validated "
              "per generated program, not proved."),
     "technique": "Lean 4 proofs of semantic preservation (simulation: induction on expressions; for statements induction on the fuel of "
-                 "a big-step C semantics, with loops, switch ladders (C15's search-tree lemmas), break/continue and pending jumps) for the integer expression and statement "
+                 "a big-step C semantics - over all activations at once for calls, with nested frames on a shared stack -, loops, switch "
+                 "ladders (C15's search-tree lemmas), break/continue and pending jumps) for the integer expression and statement "
                  "fragments + text-level correspondence with cproc-qbe + translation validation of generated programs under a formal "
                  "IL semantics",
 }
